@@ -1317,6 +1317,7 @@ lydjson_parse_any(struct lyd_json_ctx *lydctx, const struct lysc_node *snode, st
     LY_ERR r, rc = LY_SUCCESS;
     uint32_t prev_parse_opts = lydctx->parse_opts, prev_int_opts = lydctx->int_opts;
     uint32_t prev_ll_scope = lydctx->ll_scope, prev_ll_count = lydctx->ll_inst.count;
+    const struct lysc_node *prev_any_schema = lydctx->any_schema;
     struct ly_in in_start;
     char *val = NULL;
     const char *end;
@@ -1437,7 +1438,7 @@ cleanup:
     }
     lydctx->parse_opts = prev_parse_opts;
     lydctx->int_opts = prev_int_opts;
-    lydctx->any_schema = NULL;
+    lydctx->any_schema = prev_any_schema;
     while (lydctx->ll_inst.count > prev_ll_count) {
         ly_set_rm_index(&lydctx->ll_inst, lydctx->ll_inst.count - 1, NULL);
     }
